@@ -111,9 +111,12 @@ def judge_format(acc, f):
             c2 = Fxp(None, dtype=spell_fxp(f, True))
             c3 = Fxp(None, True, 9, 2)
             c3.resize(dtype=spell_fxp(f, True))
-            acc.transitions += 2
-            acc.evaluations += 2
-            for nm, o in (('ctor', c2), ('resize', c3)):
+            c4 = Fxp(None, dtype=spell_fxp(f, True).upper())                   # parsing is case-insensitive, suffix included
+            c5 = Fxp(None, True, 9, 2)
+            c5.resize(dtype=spell_fxp(f, True).replace('fxp', 'Fxp').replace('complex', 'Complex'))
+            acc.transitions += 4
+            acc.evaluations += 4
+            for nm, o in (('ctor', c2), ('resize', c3), ('ctor_upper', c4), ('resize_mixed', c5)):
                 if fmt_of(o) != f or o.dtype != spell_fxp(f, True) or o.vdtype != complex:
                     bad('parse_complex', '%s with dtype=%r gives %s (vdtype %r)' % (nm, spell_fxp(f, True), o.dtype, o.vdtype), route=nm)
         # fxp_sum(dtype=): the public route into utils.get_sizes_from_dtype
